@@ -539,9 +539,10 @@ def _own_entered(path, owns, variant):
     return any(path.facts.get(('discr', ('init', r + ('data', 'state')))) == ('eq', variant) for r in owns)
 
 
-def _notified_marks(path):
+def _notified_marks(path, E=None):
     return [e for e in path.events if e['k'] == 'write' and e['loc'][0][0] == 'tok'
-            and loc_endswith(e['loc'], 'state') and e['val'][0] == 'agg' and e['val'][2] == 'Notified']
+            and loc_endswith(e['loc'], 'state') and e['val'][0] == 'agg' and e['val'][2] == 'Notified'
+            and (E is None or effective(E, path, e))]
 
 
 def mutex_fair_J(E, F, methods, run):
@@ -560,7 +561,7 @@ def mutex_fair_J(E, F, methods, run):
         for path in run(m['path']):
             if path.exit != 'return' or const_of(E, path.facts, fair_v) == 0:
                 continue
-            marks = _notified_marks(path)
+            marks = _notified_marks(path, E)
             if not marks:
                 continue
             n += 1
@@ -586,7 +587,7 @@ def sem_fair_J(E, F, wk, run):
     for path in run(wk['path']):
         if path.exit != 'return' or const_of(E, path.facts, ('init', (('P', 'self'), 'is_fair'))) == 0:
             continue
-        for e in _notified_marks(path):
+        for e in _notified_marks(path, E):
             n += 1
             tok = e['loc'][:1]
             req = ('init', tok + ('data', 'required_permits'))
@@ -766,4 +767,11 @@ def effective(E, path, w):
     if old == val:
         return False
     a, b = const_of(E, path.facts, old), const_of(E, path.facts, val)
-    return not (a is not None and a == b)
+    if a is not None and a == b:
+        return False
+    # a field-less enum variant stored over a value the path knows to be that variant
+    if isinstance(val, tuple) and val[0] == 'agg' and not val[3]:
+        k = E.variant_known(path.facts, old) if old[0] != 'agg' else ('eq', old[2])
+        if k == ('eq', val[2]):
+            return False
+    return True
